@@ -40,7 +40,7 @@ func init() {
 			"plus dial-failure sessions (2-3 peers, one refusing for ever or until it recovers inside try_duration, PROXY header v0/v1/v2, garbage collector off so that finalizers cannot close a leaked socket): every " +
 			"connection of an abandoned attempt is closed when the handler returns. oracle: (a) each upstream received exactly the client's stream, (b) the client received each upstream's " +
 			"bytes in order, (c) the side that is still open observes EOF while its own direction keeps flowing, (d) the handler returns and every upstream connection is closed, (e) no goroutine left in " +
-			"l4proxy and the fd count returns to the baseline. non-trivial = bytes flowed in both directions or an abrupt close was injected; distinct = hash(all session parameters). sessions in the client-first / simultaneous orders may have a proxy_protocol handler in front of the proxy (v1, v1 UNKNOWN or v2 header written together with the first payload bytes; route chosen by the proxy_protocol matcher or not): the upstream must still get exactly the client's stream.",
+			"l4proxy and the fd count returns to the baseline. non-trivial = bytes flowed in both directions or an abrupt close was injected; distinct = hash(all session parameters). sessions in the client-first / simultaneous orders may have a proxy_protocol handler in front of the proxy (v1, v1 UNKNOWN or v2 header written together with the first payload bytes; route chosen by the proxy_protocol matcher or not): the upstream must still get exactly the client's stream. sessions may start with a short first segment while a matcher asks for 6200..8000 bytes (the prefetch fills up in uneven steps and crosses the matching limit), or reach the proxy by falling through a subroute (300 ms matching timeout) that decides without reading, with a client that pauses 450 ms after its first bytes.",
 		Assumptions: []string{
 			"for abrupt orders (reset/abort/early close) only prefix integrity, handler return and cleanup are asserted: the kernel may discard queued data on reset",
 			"kernel coalescing makes chunking best effort",
